@@ -54,6 +54,8 @@ ASSUMPTIONS = ['ASCII distance strings (Python \\d and float() also accept other
                'the model is the behaviour after fixes/C19-get-distance-finite.diff (nan / inf distances rejected)',
                'coordinates away from the subnormal range for "zero iff coincident" (x*x underflows below ~1e-162)']
 PARTIAL = [
+    'large kernels (half sizes 150..2047, anisotropic pairs such as (600,40), big annuli): the theorems cover all sizes; the extracted model is '
+    'compared cell-for-cell only up to 200000 cells per kernel, larger ones are checked by the exact Python-integer oracle only',
     'that great-circle distance is radius x central angle is checked by the oracle for the radius actually passed (central angle from the '
     'unit vectors with atan2, tolerance 4e-8 rad: the haversine formula loses ~sqrt(eps) near antipodes); the Coq theorem is the range '
     '0 <= d <= pi * radius only',
@@ -82,7 +84,12 @@ LEVEL_TEXT = ('Proved for all inputs (Coq; axiom-free except the one theorem ove
               'sin/cos/asin, discharged for the real functions); calc_cellsize uses attrs res (pair/scalar) else (max-min)/(n-1), converts through '
               'the table, never returns a negative y size and yields the spacing for evenly spaced coordinates. Float results of all functions '
               'are compared bit-for-bit with the extracted model; the spherical triangle inequality is oracle-only.')
-LEVEL_NOTE = ('Trusted: Coq kernel, extraction incl. ExtrOCamlFloats, OCaml libm and float parsing, the harness; NumPy linspace/pad '
+RULE += (' Large-kernel stream: _ellipse_kernel at (181,181), (182,182), (250,250), a random isotropic size in 150..400, (600,40), (40,600), '
+         '(1000,33), (33,1000), (2047,17), circle_kernel with radii 250 / 0.25 km / 820 ft / 0.2 miles / random ft, km, miles on unit, 0.3048, '
+         '2, 30 and anisotropic (0.5 x 8, 1 x 25) cells, annuli with outer half sizes 300..500 — each compared cell-for-cell with a mask built '
+         'from Python-integer arithmetic (isqrt per row).')
+LEVEL_NOTE = ('Correspondence with the extracted model at large kernel sizes is limited to 200000 cells per kernel (cost); beyond that the '
+              'exact-integer oracle is the only check. Trusted: Coq kernel, extraction incl. ExtrOCamlFloats, OCaml libm and float parsing, the harness; NumPy linspace/pad '
               'semantics as modelled.')
 
 KEY_NANINF = 'get-distance-accepts-nan-inf'
@@ -956,6 +963,126 @@ def run_cellsize(ctx, conv, lines, cmp):
 
 
 # ---------------------------------------------------------------------------
+# 6. large kernels: big radius / cell-size ratios and strongly anisotropic cells
+# ---------------------------------------------------------------------------
+def exact_ellipse_mask(hw, hh):
+    """the ellipse mask from Python-integer arithmetic only (no fixed-width products): row y holds the cells with
+    x^2 * hh^2 <= hw^2 * (hh^2 - y^2), i.e. |x| <= isqrt(hw^2 (hh^2 - y^2) // hh^2)"""
+    xmax = []
+    for y in range(-hh, hh + 1):
+        if hh == 0:
+            xmax.append(hw)
+        else:
+            xmax.append(math.isqrt((hw * hw * (hh * hh - y * y)) // (hh * hh)))
+    xs = np.abs(np.arange(-hw, hw + 1, dtype=np.int64))
+    return (xs[None, :] <= np.array(xmax, dtype=np.int64)[:, None]).astype(float)
+
+
+def first_diff(got, exp, hw, hh):
+    got = np.asarray(got)
+    if got.shape != exp.shape:
+        return 'kernel shape %r, expected odd shape %r' % (got.shape, exp.shape)
+    d = np.argwhere(got != exp)
+    if len(d):
+        j, i = (int(v) for v in d[0])
+        return '%d cells differ from the ellipse mask, first: cell (%d,%d) offset (%d,%d) is %r, ellipse equation says %d (hw=%d hh=%d)' % (
+            len(d), j, i, i - hw, j - hh, got[j, i], exp[j, i], hw, hh)
+    return None
+
+
+LARGE_MODEL_CELLS = 200000      # the extracted model is compared up to this many cells; larger kernels are oracle-only
+
+
+def check_large_ellipse(ctx, conv, case, lines, cmp):
+    hw, hh = case['hw'], case['hh']
+    r = call(conv._ellipse_kernel, hw, hh)
+    if r[0] != 'ok':
+        ctx.violation('oracle', '_ellipse_kernel(%d,%d) raised %s: %s' % (hw, hh, r[1], r[2]), case)
+        return
+    w = first_diff(r[1], exact_ellipse_mask(hw, hh), hw, hh)
+    if w:
+        ctx.violation('oracle', '_ellipse_kernel(%d,%d): %s' % (hw, hh, w), case)
+    if (2 * hw + 1) * (2 * hh + 1) <= LARGE_MODEL_CELLS:
+        lines.append('ellipse %d %d' % (hw, hh))
+        cmp.append(('kernel', r, case))
+
+
+def check_large_circle(ctx, conv, case, lines, cmp):
+    default_unit, units_tbl = read_units(os.environ.get('VERIF_REPO', '/repo'))
+    cx, cy, radius = case['cx'], case['cy'], case['radius']
+    rs = radius_str(radius)
+    rm = float(dist_oracle(rs, units_tbl, default_unit)[1])
+    (hw, hwx), (hh, hhx) = exact_half(rm, cx), exact_half(rm, cy)
+    r = call(conv.circle_kernel, cx, cy, radius)
+    if r[0] != 'ok':
+        ctx.violation('oracle', 'circle_kernel(%r,%r,%r) raised %s: %s' % (cx, cy, radius, r[1], r[2]), case)
+        return
+    if hw == hwx and hh == hhx:
+        w = first_diff(r[1], exact_ellipse_mask(hw, hh), hw, hh)
+        if w:
+            ctx.violation('oracle', 'circle_kernel(%r,%r,%r) with radius/cellsize = (%d,%d): %s' % (cx, cy, radius, hw, hh, w), case)
+    if (2 * hw + 1) * (2 * hh + 1) <= LARGE_MODEL_CELLS:
+        lines.append('circle %s %s %s' % (hx(cx), hx(cy), sx(rs)))
+        cmp.append(('kernel', r, case))
+
+
+def check_large_annulus(ctx, conv, case, lines, cmp):
+    default_unit, units_tbl = read_units(os.environ.get('VERIF_REPO', '/repo'))
+    cx, cy, outer, inner = case['cx'], case['cy'], case['outer'], case['inner']
+    ro = float(dist_oracle(radius_str(outer), units_tbl, default_unit)[1])
+    ri = float(dist_oracle(radius_str(inner), units_tbl, default_unit)[1])
+    (how, a1), (hoh, a2) = exact_half(ro, cx), exact_half(ro, cy)
+    (hiw, a3), (hih, a4) = exact_half(ri, cx), exact_half(ri, cy)
+    r = call(conv.annulus_kernel, cx, cy, outer, inner)
+    if r[0] != 'ok':
+        ctx.violation('oracle', 'annulus_kernel(%r,%r,%r,%r) raised %s: %s' % (cx, cy, outer, inner, r[1], r[2]), case)
+        return
+    if (how, hoh, hiw, hih) == (a1, a2, a3, a4):
+        exp = exact_ellipse_mask(how, hoh)
+        oy, ox = hoh - hih, how - hiw
+        exp[oy:oy + 2 * hih + 1, ox:ox + 2 * hiw + 1] -= exact_ellipse_mask(hiw, hih)
+        w = first_diff(r[1], exp, how, hoh)
+        if w:
+            ctx.violation('oracle', 'annulus_kernel(%r,%r,%r,%r) is not outer minus the centred inner ellipse mask: %s' % (
+                cx, cy, outer, inner, w), case)
+        elif np.asarray(r[1]).min() < 0:
+            ctx.violation('oracle', 'annulus_kernel(%r,%r,%r,%r) has negative cells' % (cx, cy, outer, inner), case)
+    if (2 * how + 1) * (2 * hoh + 1) <= LARGE_MODEL_CELLS:
+        lines.append('annulus %s %s %s %s' % (hx(cx), hx(cy), sx(radius_str(outer)), sx(radius_str(inner))))
+        cmp.append(('kernel', r, case))
+
+
+def run_large_kernels(ctx, conv, lines, cmp):
+    rng = ctx.rng
+    # (a) _ellipse_kernel directly: isotropic 150..400 (products x*hh pass 2**15 at 182), anisotropic pairs
+    pairs = [(181, 181), (182, 182), (250, 250), (rng.randint(150, 400),) * 2, (600, 40), (40, 600), (1000, 33), (33, 1000),
+             (rng.randint(400, 900), rng.randint(20, 60)), (2047, 17)]
+    if not ctx.quick():
+        pairs += [(rng.randint(150, 500), rng.randint(150, 500)) for _ in range(12)] + [(3000, 12), (12, 3000), (724, 724)]
+    for hw, hh in pairs:
+        case = {'family': 'large-ellipse', 'hw': hw, 'hh': hh}
+        ctx.case(case)
+        ctx.count('large/ellipse/%s' % ('isotropic' if hw == hh else 'anisotropic'))
+        check_large_ellipse(ctx, conv, case, lines, cmp)
+    # (b) circle_kernel / annulus_kernel: numeric radii and radii in m / km / ft / mi on unit, fine and anisotropic cells
+    circles = [(1, 1, 250), (1.0, 1.0, '0.25 km'), (1, 1, '820 ft'), (1, 1, '0.2 mi'.replace('mi', 'miles')), (0.5, 8.0, 300),
+               (8.0, 0.5, '300 m'), (0.3048, 0.3048, '%d ft' % rng.randint(190, 400)),
+               (2.0, 2.0, '%.3f km' % (rng.randint(400, 800) / 1000.0)), (30.0, 30.0, '%d miles' % rng.randint(4, 7)),
+               (1, 25, rng.randint(700, 1200))]
+    for cx, cy, radius in circles:
+        case = {'family': 'large-circle', 'cx': cx, 'cy': cy, 'radius': radius}
+        ctx.case(case)
+        ctx.count('large/circle')
+        check_large_circle(ctx, conv, case, lines, cmp)
+    annuli = [(1, 1, 300, 150), (2.0, 0.5, '0.4 km', '100 m'), (1, 1, '%d ft' % rng.randint(700, 1000), 60), (1.0, 6.0, 500, 499)]
+    for cx, cy, outer, inner in annuli:
+        case = {'family': 'large-annulus', 'cx': cx, 'cy': cy, 'outer': outer, 'inner': inner}
+        ctx.case(case)
+        ctx.count('large/annulus')
+        check_large_annulus(ctx, conv, case, lines, cmp)
+
+
+# ---------------------------------------------------------------------------
 # model comparison
 # ---------------------------------------------------------------------------
 def compare(kind, impl, mo):
@@ -1028,6 +1155,7 @@ def run(ctx):
     run_dist(ctx, conv, lines, cmp)
     run_kernels(ctx, conv, lines, cmp)
     run_cellsize(ctx, conv, lines, cmp)
+    run_large_kernels(ctx, conv, lines, cmp)
     flush(ctx, lines, cmp)
     ctx.exhaustive = False
 
@@ -1069,6 +1197,12 @@ def replay_case(ctx, case):
     elif fam == 'distance-string':
         default_unit, units_tbl = read_units(os.environ.get('VERIF_REPO', '/repo'))
         check_dist(ctx, conv, case['string'], case.get('tag', 'replay'), units_tbl, default_unit, lines, cmp)
+    elif fam == 'large-ellipse':
+        check_large_ellipse(ctx, conv, case, lines, cmp)
+    elif fam == 'large-circle':
+        check_large_circle(ctx, conv, case, lines, cmp)
+    elif fam == 'large-annulus':
+        check_large_annulus(ctx, conv, case, lines, cmp)
     else:
         # kernels / cellsize: re-run the whole (cheap) family
         run_kernels(ctx, conv, lines, cmp)
